@@ -2,7 +2,7 @@ use proc_macro2::{Span, TokenStream};
 use quote::{format_ident, quote};
 use syn::{Data, DeriveInput, Fields, Type};
 
-use crate::helpers::{non_enum_error, HasStrumVariantProperties, HasTypeProperties};
+use crate::helpers::{non_enum_error, HasStrumVariantProperties};
 
 pub fn from_repr_inner(ast: &DeriveInput) -> syn::Result<TokenStream> {
     let name = &ast.ident;
@@ -11,24 +11,26 @@ pub fn from_repr_inner(ast: &DeriveInput) -> syn::Result<TokenStream> {
     let vis = &ast.vis;
 
     let mut discriminant_type: Type = syn::parse("usize".parse().unwrap()).unwrap();
-    if let Some(type_path) = ast
-        .get_type_properties()
-        .ok()
-        .and_then(|tp| tp.enum_repr)
-        .and_then(|repr_ts| syn::parse2::<Type>(repr_ts).ok())
-    {
-        if let Type::Path(path) = type_path.clone() {
-            if let Some(seg) = path.path.segments.last() {
-                for t in &[
-                    "u8", "u16", "u32", "u64", "usize", "i8", "i16", "i32", "i64", "isize",
-                ] {
-                    if seg.ident == t {
-                        discriminant_type = type_path;
-                        break;
-                    }
+    // The integer type can be one of several hints (`#[repr(C, u8)]`, `#[repr(i16, align(4))]`)
+    // and the hints can be spread over several `#[repr(..)]` attributes.
+    for attr in ast.attrs.iter().filter(|attr| attr.path().is_ident("repr")) {
+        let _ = attr.parse_nested_meta(|meta| {
+            for t in &[
+                "u8", "u16", "u32", "u64", "usize", "i8", "i16", "i32", "i64", "isize",
+            ] {
+                if meta.path.is_ident(t) {
+                    let path = &meta.path;
+                    discriminant_type = syn::parse_quote!(#path);
                 }
             }
-        }
+            if meta.input.peek(syn::token::Paren) {
+                // skip the argument of hints such as `align(8)`
+                let content;
+                syn::parenthesized!(content in meta.input);
+                content.parse::<TokenStream>()?;
+            }
+            Ok(())
+        });
     }
 
     if gen.lifetimes().count() > 0 {
